@@ -1,68 +1,129 @@
 ------------------------------ MODULE SmtpServer ------------------------------
 (* slimta/smtp/server.py Server (+ edge/smtp.py SmtpSession) as a finite state machine over
    command variants and validator verdicts.  One action = one command line (DATA that is answered
-   354 includes the message content and its end-of-data reply as a second action "content").
-   `last` records what the action did, so that the C07 clauses are state invariants. *)
+   354 includes the message content and its end-of-data reply as a second action "content"; an AUTH
+   exchange with its 334 challenges and a STARTTLS with its handshake are one action each).
+   `last` records what the action did, so that the C07 / C08 clauses are state invariants.
+
+   Extensions: TlsOn / AuthOn say whether the server was configured with a TLS context / an AUTH
+   back-end; `tlsoff` / `authoff` are what the extension table still holds (HELO empties the table,
+   a completed handshake drops STARTTLS).
+
+   Deviation switches (FALSE = the code as it is meant to be):
+     KF_FlagsSurviveTls    a completed handshake keeps the open transaction            (D8, fixed 856f693)
+     KF_BufferSurvivesTls  bytes buffered in clear behind the STARTTLS line are read as
+                           commands after the handshake                                  (D7, fixed ede29b7)
+     KF_BareArg421         AUTH / MAIL / RCPT without argument end the session with 421  (D9, fixed 859cf0a)
+     KF_PlainAuthNoTls     a plain-text SASL mechanism is accepted on an unencrypted
+                           session (D27: TRUE is the code as it is with the installed pysasl - known finding) *)
 EXTENDS Naturals, FiniteSets, TLC
 
-Cmds == {"EHLO", "HELO", "MAIL", "RCPT", "DATA", "content", "RSET", "NOOP", "QUIT", "UNKNOWN"}
-Forms == {"ok", "malformed", "bare"}            \* "bare": MAIL / RCPT without any argument (answered 421 + teardown before the D9 fix)
+CONSTANTS TlsOn, AuthOn, KF_FlagsSurviveTls, KF_BufferSurvivesTls, KF_BareArg421, KF_PlainAuthNoTls
+
+Cmds == {"EHLO", "HELO", "MAIL", "RCPT", "DATA", "content", "RSET", "NOOP", "QUIT", "UNKNOWN", "STARTTLS", "AUTH"}
+Forms == {"ok", "malformed", "bare"}            \* "bare": AUTH / MAIL / RCPT without any argument
 Verdicts == {0, 450, 550, 421}                  \* what the application's validator answers
 
-VARIABLES ban, helo, mail, rcpt, indata, over, last
-vars == <<ban, helo, mail, rcpt, indata, over, last>>
-NoLast == [cmd |-> "", form |-> "ok", cbs |-> {}, code |-> 0, pre |-> [ban |-> FALSE, helo |-> FALSE, mail |-> FALSE, rcpt |-> FALSE, indata |-> FALSE]]
-Pre == [ban |-> ban, helo |-> helo, mail |-> mail, rcpt |-> rcpt, indata |-> indata]
+VARIABLES ban, helo, mail, rcpt, indata, over, last,
+          enc,        \* the session is encrypted
+          authed,     \* the application accepted credentials
+          tlsoff,     \* STARTTLS is in the extension table
+          authoff,    \* AUTH is in the extension table
+          crossed     \* something received in clear before the handshake was acted on after it
+vars == <<ban, helo, mail, rcpt, indata, over, last, enc, authed, tlsoff, authoff, crossed>>
+NoPre == [ban |-> FALSE, helo |-> FALSE, mail |-> FALSE, rcpt |-> FALSE, indata |-> FALSE, enc |-> FALSE, authed |-> FALSE,
+          tlsoff |-> FALSE, authoff |-> FALSE]
+NoLast == [cmd |-> "", form |-> "ok", cbs |-> {}, code |-> 0, plain |-> FALSE, pre |-> NoPre]
+Pre == [ban |-> ban, helo |-> helo, mail |-> mail, rcpt |-> rcpt, indata |-> indata, enc |-> enc, authed |-> authed,
+        tlsoff |-> tlsoff, authoff |-> authoff]
 
 Init == /\ \E v \in Verdicts : LET code == IF v = 0 THEN 220 ELSE v IN
              /\ ban = (code = 220) /\ over = (code \in {221, 421})
              /\ last = [NoLast EXCEPT !.cmd = "BANNER", !.cbs = {"BANNER"}, !.code = code]
         /\ helo = FALSE /\ mail = FALSE /\ rcpt = FALSE /\ indata = FALSE
+        /\ enc = FALSE /\ authed = FALSE /\ tlsoff = TlsOn /\ authoff = AuthOn /\ crossed = FALSE
 
-Done(cmd, form, cbs, code) == /\ last' = [cmd |-> cmd, form |-> form, cbs |-> cbs, code |-> code, pre |-> Pre]
-                              /\ over' = (code \in {221, 421})
+DoneP(cmd, form, cbs, code, plain) ==
+  /\ last' = [cmd |-> cmd, form |-> form, cbs |-> cbs, code |-> code, plain |-> plain, pre |-> Pre]
+  /\ over' = (code \in {221, 421})
+Done(cmd, form, cbs, code) == DoneP(cmd, form, cbs, code, FALSE)
 Keep == UNCHANGED <<ban, helo, mail, rcpt, indata>>
+KeepX == UNCHANGED <<enc, authed, tlsoff, authoff, crossed>>
 Code(v, dflt) == IF v = 0 THEN dflt ELSE v
+BareCode == IF KF_BareArg421 THEN 421 ELSE 501
 
 Hello(cmd) == \E form \in {"ok", "malformed"}, v \in Verdicts :
-  IF ~ban THEN Done(cmd, form, {}, 503) /\ Keep
-  ELSE IF form = "malformed" THEN Done(cmd, form, {}, 501) /\ Keep
+  IF ~ban THEN Done(cmd, form, {}, 503) /\ Keep /\ KeepX
+  ELSE IF form = "malformed" THEN Done(cmd, form, {}, 501) /\ Keep /\ KeepX
   ELSE LET code == Code(v, 250) IN
        /\ Done(cmd, form, {cmd}, code)
        /\ IF code = 250 THEN helo' = TRUE /\ mail' = FALSE /\ rcpt' = FALSE ELSE UNCHANGED <<helo, mail, rcpt>>
-       /\ UNCHANGED <<ban, indata>>
+       \* an accepted HELO empties the extension table for the rest of the session
+       /\ IF code = 250 /\ cmd = "HELO" THEN tlsoff' = FALSE /\ authoff' = FALSE ELSE UNCHANGED <<tlsoff, authoff>>
+       /\ UNCHANGED <<ban, indata, enc, authed, crossed>>
 Mail == \E form \in Forms, v \in Verdicts :
-  IF form = "bare" THEN Done("MAIL", form, {}, 501) /\ Keep
-  ELSE IF form = "malformed" THEN Done("MAIL", form, {}, 501) /\ Keep
-  ELSE IF ~helo \/ mail THEN Done("MAIL", form, {}, 503) /\ Keep
+  IF form = "bare" THEN Done("MAIL", form, {}, BareCode) /\ Keep /\ KeepX
+  ELSE IF form = "malformed" THEN Done("MAIL", form, {}, 501) /\ Keep /\ KeepX
+  ELSE IF ~helo \/ mail THEN Done("MAIL", form, {}, 503) /\ Keep /\ KeepX
   ELSE LET code == Code(v, 250) IN
-       /\ Done("MAIL", form, {"MAIL"}, code) /\ mail' = (code = 250) /\ UNCHANGED <<ban, helo, rcpt, indata>>
+       /\ Done("MAIL", form, {"MAIL"}, code) /\ mail' = (code = 250) /\ UNCHANGED <<ban, helo, rcpt, indata>> /\ KeepX
 Rcpt == \E form \in Forms, v \in Verdicts :
-  IF form = "bare" THEN Done("RCPT", form, {}, 501) /\ Keep
-  ELSE IF form = "malformed" THEN Done("RCPT", form, {}, 501) /\ Keep
-  ELSE IF ~mail THEN Done("RCPT", form, {}, 503) /\ Keep
+  IF form = "bare" THEN Done("RCPT", form, {}, BareCode) /\ Keep /\ KeepX
+  ELSE IF form = "malformed" THEN Done("RCPT", form, {}, 501) /\ Keep /\ KeepX
+  ELSE IF ~mail THEN Done("RCPT", form, {}, 503) /\ Keep /\ KeepX
   ELSE LET code == Code(v, 250) IN
-       /\ Done("RCPT", form, {"RCPT"}, code) /\ rcpt' = (rcpt \/ code = 250) /\ UNCHANGED <<ban, helo, mail, indata>>
+       /\ Done("RCPT", form, {"RCPT"}, code) /\ rcpt' = (rcpt \/ code = 250) /\ UNCHANGED <<ban, helo, mail, indata>> /\ KeepX
 Data == \E form \in {"ok", "malformed"}, v \in Verdicts :
-  IF form = "malformed" THEN Done("DATA", form, {}, 501) /\ Keep
-  ELSE IF ~mail \/ ~rcpt THEN Done("DATA", form, {}, 503) /\ Keep
+  IF form = "malformed" THEN Done("DATA", form, {}, 501) /\ Keep /\ KeepX
+  ELSE IF ~mail \/ ~rcpt THEN Done("DATA", form, {}, 503) /\ Keep /\ KeepX
   ELSE LET code == Code(v, 354) IN
-       /\ Done("DATA", form, {"DATA"}, code) /\ indata' = (code = 354) /\ UNCHANGED <<ban, helo, mail, rcpt>>
+       /\ Done("DATA", form, {"DATA"}, code) /\ indata' = (code = 354) /\ UNCHANGED <<ban, helo, mail, rcpt>> /\ KeepX
 Content == \E v \in Verdicts :
   /\ indata
   /\ Done("content", "ok", {"HAVE_DATA"}, Code(v, 250))
-  /\ indata' = FALSE /\ mail' = FALSE /\ rcpt' = FALSE /\ UNCHANGED <<ban, helo>>
+  /\ indata' = FALSE /\ mail' = FALSE /\ rcpt' = FALSE /\ UNCHANGED <<ban, helo>> /\ KeepX
 Rset == \E form \in {"ok", "malformed"} :
-  IF form = "malformed" THEN Done("RSET", form, {}, 501) /\ Keep
-  ELSE Done("RSET", form, {}, 250) /\ mail' = FALSE /\ rcpt' = FALSE /\ UNCHANGED <<ban, helo, indata>>
-Noop == Done("NOOP", "ok", {}, 250) /\ Keep
+  IF form = "malformed" THEN Done("RSET", form, {}, 501) /\ Keep /\ KeepX
+  ELSE Done("RSET", form, {}, 250) /\ mail' = FALSE /\ rcpt' = FALSE /\ UNCHANGED <<ban, helo, indata>> /\ KeepX
+Noop == Done("NOOP", "ok", {}, 250) /\ Keep /\ KeepX
 Quit == \E form \in {"ok", "malformed"} :
-  IF form = "malformed" THEN Done("QUIT", form, {}, 501) /\ Keep ELSE Done("QUIT", form, {}, 221) /\ Keep
-Unknown == Done("UNKNOWN", "ok", {}, 500) /\ Keep
+  IF form = "malformed" THEN Done("QUIT", form, {}, 501) /\ Keep /\ KeepX ELSE Done("QUIT", form, {}, 221) /\ Keep /\ KeepX
+Unknown == Done("UNKNOWN", "ok", {}, 500) /\ Keep /\ KeepX
+
+(* STARTTLS: `piggy` - bytes arrive in the same clear-text segment behind the command line (or behind the 220);
+   `hs` - whether the handshake completes. *)
+StartTls == \E form \in {"ok", "malformed"}, v \in Verdicts, hs \in {"done", "fail"}, piggy \in BOOLEAN :
+  IF ~tlsoff THEN Done("STARTTLS", form, {}, 500) /\ Keep /\ KeepX
+  ELSE IF form = "malformed" THEN Done("STARTTLS", form, {}, 501) /\ Keep /\ KeepX
+  ELSE IF ~helo THEN Done("STARTTLS", form, {}, 503) /\ Keep /\ KeepX
+  ELSE LET code == Code(v, 220) IN
+       IF code # 220 THEN Done("STARTTLS", form, {"STARTTLS"}, code) /\ Keep /\ KeepX
+       ELSE IF hs = "fail"
+       THEN \* the 220 went out, the handshake failed: a failure reply and the session ends
+            /\ last' = [cmd |-> "STARTTLS", form |-> form, cbs |-> {"STARTTLS"}, code |-> 421, plain |-> FALSE, pre |-> Pre]
+            /\ over' = TRUE /\ Keep /\ KeepX
+       ELSE /\ Done("STARTTLS", form, {"STARTTLS", "TLSHANDSHAKE"}, 220)
+            /\ enc' = TRUE /\ tlsoff' = FALSE /\ helo' = FALSE
+            /\ IF KF_FlagsSurviveTls THEN UNCHANGED <<mail, rcpt>> ELSE mail' = FALSE /\ rcpt' = FALSE
+            /\ crossed' = (crossed \/ (piggy /\ KF_BufferSurvivesTls))
+            /\ UNCHANGED <<ban, indata, authed, authoff>>
+
+(* AUTH: `plain` - the mechanism sends the secret in clear (PLAIN, LOGIN); form "malformed" stands for bad base64,
+   a cancelled exchange and an unknown mechanism. *)
+Auth == \E form \in Forms, v \in Verdicts, plain \in BOOLEAN :
+  IF ~authoff THEN DoneP("AUTH", form, {}, 500, plain) /\ Keep /\ KeepX
+  ELSE IF ~helo \/ authed \/ mail THEN DoneP("AUTH", form, {}, 503, plain) /\ Keep /\ KeepX
+  ELSE IF form = "bare" THEN DoneP("AUTH", form, {}, BareCode, plain) /\ Keep /\ KeepX
+  ELSE IF form = "malformed" THEN DoneP("AUTH", form, {}, 501, plain) /\ Keep /\ KeepX
+  ELSE IF plain /\ ~enc /\ ~KF_PlainAuthNoTls THEN DoneP("AUTH", form, {}, 504, plain) /\ Keep /\ KeepX
+  ELSE LET code == Code(v, 235) IN
+       /\ DoneP("AUTH", form, {"AUTH"}, code, plain)
+       /\ authed' = (code = 235)
+       /\ Keep /\ UNCHANGED <<enc, tlsoff, authoff, crossed>>
 
 Next == /\ ~over
         /\ IF indata THEN Content
-           ELSE Hello("EHLO") \/ Hello("HELO") \/ Mail \/ Rcpt \/ Data \/ Rset \/ Noop \/ Quit \/ Unknown
+           ELSE Hello("EHLO") \/ Hello("HELO") \/ Mail \/ Rcpt \/ Data \/ Rset \/ Noop \/ Quit \/ Unknown \/ StartTls \/ Auth
 Spec == Init /\ [][Next]_vars
 
 (* ------------------------------ C07 on the design ------------------------------ *)
@@ -71,12 +132,31 @@ InOrder(c, p) == CASE c \in {"EHLO", "HELO"} -> p.ban
                    [] c = "RCPT" -> p.mail
                    [] c = "DATA" -> p.mail /\ p.rcpt
                    [] c = "content" -> p.indata
+                   [] c = "STARTTLS" -> p.tlsoff /\ p.helo
+                   [] c = "AUTH" -> p.authoff /\ p.helo /\ ~p.authed /\ ~p.mail
                    [] OTHER -> TRUE
-Proto == {"MAIL", "RCPT", "DATA", "HAVE_DATA"}
+Proto == {"MAIL", "RCPT", "DATA", "HAVE_DATA", "STARTTLS", "AUTH"}
 C07_Order == (last.cbs \cap Proto # {}) => InOrder(last.cmd, last.pre) /\ last.form = "ok"
 C07_NoCallbackOnError == (last.form # "ok" \/ ~InOrder(last.cmd, last.pre)) => last.code >= 400 /\ last.cbs = {}
 C07_Reset == /\ (last.cmd \in {"EHLO", "HELO", "RSET"} /\ last.code = 250) => ~mail /\ ~rcpt
              /\ last.cmd = "content" => ~mail /\ ~rcpt /\ ~indata
 C07_Close == last.code \in {221, 421} <=> over
 C07_StateSane == (rcpt => mail) /\ (mail => helo) /\ (helo => ban) /\ (indata => mail /\ rcpt)
+\* a malformed or out-of-order command never ends the session
+C07_ErrorsDoNotClose == (last.form # "ok" \/ ~InOrder(last.cmd, last.pre)) => ~over
+
+(* ------------------------------ C08 on the design ------------------------------ *)
+\* after a completed handshake: no EHLO identity, no open transaction, STARTTLS no longer offered
+C08_FreshAfterTls == (last.cmd = "STARTTLS" /\ last.code = 220) => enc /\ ~helo /\ ~mail /\ ~rcpt /\ ~tlsoff
+\* nothing received in clear is acted on after the handshake
+C08_NoCrossing == ~crossed
+\* AUTH reaches the application only after EHLO, not twice, not inside a transaction, and not with a plain-text
+\* mechanism on an unencrypted session; otherwise it is refused without ending the session
+C08_AuthGate == /\ ("AUTH" \in last.cbs) => /\ last.pre.helo /\ ~last.pre.authed /\ ~last.pre.mail
+                                            /\ (last.plain => last.pre.enc)
+                /\ (last.cmd = "AUTH" /\ last.pre.authoff /\ (~last.pre.helo \/ last.pre.authed \/ last.pre.mail)) => last.code = 503
+C08_AuthMalformed == (last.cmd = "AUTH" /\ last.form # "ok") => last.code >= 500 /\ last.code < 600 /\ ~over /\ last.cbs = {}
+\* authenticated only through an AUTH that the application answered 235
+C08_AuthedOnlyOn235 == /\ (authed /\ ~last.pre.authed /\ last.cmd # "") => (last.cmd = "AUTH" /\ last.code = 235 /\ "AUTH" \in last.cbs)
+                       /\ (last.cmd = "AUTH" /\ last.code = 235) => authed
 =============================================================================
